@@ -1,6 +1,7 @@
 mod entry;
 mod gen;
 mod out;
+mod p_c01;
 mod p_c02;
 mod p_c09;
 mod p_c20;
@@ -39,6 +40,18 @@ fn main() {
                 "C02" => p_c02::run(&mut out, tier, seed),
                 "C09" => p_c09::run(&mut out, tier, seed),
                 "C20" => p_c20::run(&mut out, tier, seed),
+                "C01" => {
+                    p_c01::run(&mut out, tier, seed);
+                    // deep nesting in a child process with an ordinary 8 MiB stack: an abort there is the replay
+                    let me = std::env::current_exe().unwrap();
+                    let st = std::process::Command::new(me).arg("deep-child").output();
+                    let verdict = match st {
+                        Ok(o) if o.status.success() && String::from_utf8_lossy(&o.stdout).contains("deep-ok") => "true".to_string(),
+                        Ok(o) => format!("child died: {:?} {}", o.status, String::from_utf8_lossy(&o.stderr).lines().last().unwrap_or("")),
+                        Err(e) => format!("spawn failed: {e}"),
+                    };
+                    out.case("expect", &["nesting of 200000 levels is an error, not a stack overflow (child process)"], &verdict, true);
+                }
                 "C18" => p_cas::run(&mut out, tier, seed),
                 "C17" => p_simd::run(&mut out, tier, seed),
                 "C04" => p_typed::run_c04(&mut out, tier, seed),
@@ -63,6 +76,7 @@ fn main() {
             out.finish();
         }
         "tables" => tables::dump(&args[2]),
+        "deep-child" => std::process::exit(p_c01::deep_child()),
         "f32all" => {
             let (shard, shards) = (args[2].parse().unwrap(), args[3].parse().unwrap());
             let bad = p_num::f32_all(shard, shards);
